@@ -159,32 +159,62 @@ def G4_strict(rep, flow: Flow, fqs):
                 continue
             guards = [n for n in ast.walk(g.node) if isinstance(n, ast.If) and any(isinstance(x, ast.Name) and x.id == flag for x in ast.walk(n.test))
                       and any(isinstance(b, ast.Raise) for b in n.body)]
+            # early-exit form: `if <allowed>: return / continue` with the raise following in the same block
+            for blk in [x for x in ast.walk(g.node) if hasattr(x, "body") and isinstance(getattr(x, "body"), list)]:
+                for fld in ("body", "orelse"):
+                    sts = getattr(blk, fld, None)
+                    if not isinstance(sts, list):
+                        continue
+                    for i, st in enumerate(sts):
+                        if isinstance(st, ast.If) and any(isinstance(x, ast.Name) and x.id == flag for x in ast.walk(st.test)) and st.body and not st.orelse \
+                                and isinstance(st.body[-1], (ast.Return, ast.Continue)) and any(isinstance(y, ast.Raise) for y in sts[i + 1:]):
+                            neg = ast.If(test=ast.UnaryOp(op=ast.Not(), operand=st.test), body=[y for y in sts[i + 1:] if isinstance(y, ast.Raise)][:1], orelse=[])
+                            ast.copy_location(neg, st)
+                            ast.fix_missing_locations(neg)
+                            guards.append(neg)
+            uses_flag_in_condition = any(isinstance(n, (ast.If, ast.IfExp, ast.While, ast.Assert)) and any(isinstance(x, ast.Name) and x.id == flag for x in ast.walk(n.test)) for n in ast.walk(g.node))
             passes_on = any(isinstance(c, ast.Call) and any(isinstance(a, ast.Name) and a.id == flag for a in list(c.args) + [k.value for k in c.keywords]) for c in ast.walk(g.node))
             if not guards and passes_on:
                 continue          # handed to a helper, which is judged where it has the flag as a parameter of its own
+            if not guards and uses_flag_in_condition:
+                raise AnalysisError(f"{g.module.rel} {g.qualname}: the permission flag `{flag}` is tested in a form outside the vocabulary (neither `if ...: raise` nor an early exit before the raise)")
             if not guards:
                 rep.finding("G4", f"{g.fq}:{flag}:no-guard", f"{g.module.rel} {g.qualname}: no `raise` is guarded by the permission flag `{flag}` any more: the corresponding invalid input is accepted silently")
                 continue
             for n in guards:
+                # atoms = maximal sub-expressions that do not mention the flag (the input conditions); the guard must
+                #  (a) never fire when the flag is true, whatever the conditions, and (b) fire for some condition when it is false
+                atoms = []
+
                 class _Sub(ast.NodeTransformer):
                     def visit(self, node):
                         if isinstance(node, ast.Constant):
                             return node
                         if isinstance(node, ast.expr) and not any(isinstance(x, ast.Name) and x.id == flag for x in ast.walk(node)):
-                            return ast.copy_location(ast.Constant(True), node)      # the input condition itself holds
+                            key = ast.unparse(node)
+                            if key not in atoms:
+                                atoms.append(key)
+                            return ast.copy_location(ast.Name(id=f"__atom{atoms.index(key)}", ctx=ast.Load()), node)
                         return self.generic_visit(node)
                 import copy as _copy
+                import itertools as _it
                 t = _Sub().visit(_copy.deepcopy(n.test))
                 ast.fix_missing_locations(t)
+                if len(atoms) > 6:
+                    raise AnalysisError(f"{pyfacts.where(g, n)}: guard over `{flag}` has too many independent conditions [{ast.unparse(n.test)}]")
                 try:
-                    fires = {v: bool(ce.truth(ce.ev(t, {flag: v}, g))) for v in (False, True)}
+                    fires_true, fires_false = [], []
+                    for vals in _it.product((False, True), repeat=len(atoms)):
+                        env = {f"__atom{i}": v for i, v in enumerate(vals)}
+                        fires_true.append(bool(ce.truth(ce.ev(t, dict(env, **{flag: True}), g))))
+                        fires_false.append(bool(ce.truth(ce.ev(t, dict(env, **{flag: False}), g))))
                 except (consteval.CERaise, AnalysisError):
                     raise AnalysisError(f"{pyfacts.where(g, n)}: guard over `{flag}` outside the vocabulary [{ast.unparse(n.test)}]")
-                if fires == {False: True, True: False}:
-                    rep.ok("G4", 1, nontrivial=(g.fq, flag), sample=f"{g.qualname}: `if {ast.unparse(n.test)}: raise` fires iff {flag} is false")
+                if not any(fires_true) and any(fires_false):
+                    rep.ok("G4", 1, nontrivial=(g.fq, flag), sample=f"{g.qualname}: `if {ast.unparse(n.test)}: raise` can fire only while {flag} is false")
                 else:
-                    rep.finding("G4", f"{g.fq}:{flag}:guard", f"{pyfacts.where(g, n)}: with the input condition holding, `if {ast.unparse(n.test)}: raise` fires for {flag}=False: {fires[False]}, for {flag}=True: {fires[True]}; it must raise exactly when the caller did not allow it")
-
+                    why = f"it can fire although {flag}=True" if any(fires_true) else f"it never fires, not even with {flag}=False"
+                    rep.finding("G4", f"{g.fq}:{flag}:guard", f"{pyfacts.where(g, n)}: `if {ast.unparse(n.test)}: raise` does not implement the permission flag: {why}; it must be able to raise exactly when the caller did not allow it")
 
 def G3_graphs(rep, flow: Flow):
     rep.rule("G3", "the coupling graph built for each advertised (n, connectivity) - adjacency relation and reported edge list - equals the documented edge set", floor=40, exhaustive=True)
